@@ -43,24 +43,78 @@ Proof. intros R A. pose proof (route_row _ _ R) as X. unfold mk_key. cbn [slot e
     rewrite (prop_dec_enc maxvec Hmax pset_prefix s k) by (unfold fitsb, pset_prefix; cbn [length]; lia). now rewrite bytes_eqb_refl, X. Qed.
 End ROUTE.
 
+(* ---- a foreign proprietary key (prefix other than "pset") set through BTreeMap::insert keeps a map well-formed ---- *)
+Section PROPSET.
+Variable maxvec : N.
+Hypothesis Hmax : maxvec + 1 < 2 ^ 64.
+Hypothesis Hmin : 4 <= maxvec.
+Variable T : table.
+Variable post : pmap -> option perr.
+Hypothesis RT : route_ok T = true.
+Hypothesis RO : rows_ok T.
+Variable ip : nat.
+Variable rp : row.
+Hypothesis Hrow : nth_error T ip = Some rp.
+Hypothesis Haddr : r_addr rp = AProp.
+Hypothesis Hv : forall k v, r_vcanon rp k v = POk v.
+Lemma foreign_entry k v pfx s d : fitsb maxvec k = true -> fitsb maxvec v = true ->
+  prop_dec maxvec k = Some (pfx, s, d) -> bytes_eqb pfx pset_prefix = false -> wf_entry maxvec T (ip, k, v).
+Proof. intros Fk Fv PD NP. destruct (ro_whole _ (RO _ _ Hrow) (or_introl Haddr)) as [KM KC].
+  assert (Kn : k <> []). { intros ->. unfold prop_dec in PD. cbn in PD. discriminate. }
+  assert (MK : mk_key maxvec T (ip, k, v) = (xfc, k)). { unfold mk_key. cbn [slot ekey fst snd]. now rewrite Hrow, Haddr. }
+  split.
+  - exists rp. cbn [slot ekey evalue fst snd]. split; [exact Hrow|]. split; [unfold kvalid; rewrite KM; split; [exact Kn|now apply KC]|].
+    rewrite MK. split; [|split; assumption].
+    assert (NPF : find_idx (is_plain xfc) T = None) by (eapply no_plain_fc; eassumption).
+    assert (X : find_idx is_prop T = Some ip). { assert (Y := Hrow). eapply route_row in Y; try eassumption. now rewrite Haddr in Y. }
+    unfold classify. now rewrite NPF, byte_eqb_refl, PD, NP, X.
+  - exists rp. cbn [slot ekey evalue fst snd]. split; [exact Hrow|apply Hv]. Qed.
+Hypothesis Hpost : forall m k v, post (set_keyed T m ip k v) = post m.
+Theorem foreign_set_wf m k v pfx s d : wf_map maxvec T post m -> fitsb maxvec k = true -> fitsb maxvec v = true ->
+  prop_dec maxvec k = Some (pfx, s, d) -> bytes_eqb pfx pset_prefix = false -> wf_map maxvec T post (set_keyed T m ip k v).
+Proof. intros [W P] Fk Fv PD NP. split; [|now rewrite Hpost]. apply set_keyed_wf; auto. eapply foreign_entry; eauto. Qed.
+End PROPSET.
+
+Lemma Forall_upd_nth {A} (P : A -> Prop) f : (forall x, P x -> P (f x)) -> forall n l, Forall P l -> Forall P (upd_nth n f l).
+Proof. intros H n. induction n as [|n IH]; intros [|x l] F; cbn; auto; inversion F; subst; constructor; auto. Qed.
+Lemma upd_nth_length {A} (f : A -> A) : forall n l, length (upd_nth n f l) = length l.
+Proof. induction n as [|n IH]; intros [|x l]; cbn; auto. Qed.
+Lemma nth_upd_nth {A} (f : A -> A) : forall n l x, nth_error l n = Some x -> nth_error (upd_nth n f l) n = Some (f x).
+Proof. induction n as [|n IH]; intros [|y l] x H; cbn in *; try discriminate; [now inversion H|now apply IH]. Qed.
+
+Definition foreign (maxvec : N) (k : bytes) : Prop := exists pfx s d, prop_dec maxvec k = Some (pfx, s, d) /\ bytes_eqb pfx pset_prefix = false.
+Section ELIPKEYS.
+Variable maxvec : N.
+Hypothesis Hmax : maxvec + 1 < 2 ^ 64.
+Hypothesis Hmin16 : 16 <= maxvec.
+(* the two ELIP key families are foreign *)
+Lemma hww_foreign sub asset : foreign maxvec (hww_key maxvec sub asset).
+Proof. exists C07_PSET_HWW_PREFIX, (n2b sub), asset. split; [|reflexivity]. apply prop_dec_enc; [exact Hmax|]. unfold fitsb. cbn [length C07_PSET_HWW_PREFIX]. lia. Qed.
+Lemma liquidex_foreign sub : foreign maxvec (liquidex_key maxvec sub).
+Proof. exists C07_PSET_LIQUIDEX_PREFIX, (n2b sub), []. split; [|reflexivity]. apply prop_dec_enc; [exact Hmax|]. unfold fitsb. cbn [length C07_PSET_LIQUIDEX_PREFIX]. lia. Qed.
+Lemma liquidex_fits sub : fitsb maxvec (liquidex_key maxvec sub) = true.
+Proof. unfold fitsb, liquidex_key, PsetRaw.prop_enc. rewrite app_length. cbn [length Codec.enc Codec.c_varbytes]. rewrite app_length. cbn [length C07_PSET_LIQUIDEX_PREFIX Codec.vi_enc]. cbn. lia. Qed.
+
+End ELIPKEYS.
+
 Section TABLES.
 Variable maxvec : N.
 Hypothesis Hmax : maxvec + 1 < 2 ^ 64.
 Hypothesis Hmin : 4 <= maxvec.
 Variables cap_txin cap_txout cap_vecu8 cap_h32 : N.
-Variables pt_ok pk_ok xonly_ok btctx_ok xpub_ok : bytes -> bool.
+Variables pt_ok pk_ok xonly_ok : bytes -> bool.
 Variables Hrip Hsha Hh160 Hh256 : bytes -> bytes.
 Variables Hleaf Hbranch : bytes -> bytes.
 
-Notation row_of_desc := (row_of_desc maxvec cap_txin cap_txout cap_vecu8 cap_h32 pt_ok pk_ok xonly_ok btctx_ok xpub_ok Hrip Hsha Hh160 Hh256 Hleaf Hbranch).
-Notation TG := (Tg maxvec cap_txin cap_txout cap_vecu8 cap_h32 pt_ok pk_ok xonly_ok btctx_ok xpub_ok Hrip Hsha Hh160 Hh256 Hleaf Hbranch).
-Notation TI := (Ti maxvec cap_txin cap_txout cap_vecu8 cap_h32 pt_ok pk_ok xonly_ok btctx_ok xpub_ok Hrip Hsha Hh160 Hh256 Hleaf Hbranch).
-Notation TO := (To maxvec cap_txin cap_txout cap_vecu8 cap_h32 pt_ok pk_ok xonly_ok btctx_ok xpub_ok Hrip Hsha Hh160 Hh256 Hleaf Hbranch).
-Notation POSTG := (postg maxvec cap_txin cap_txout cap_vecu8 cap_h32 pt_ok pk_ok xonly_ok btctx_ok xpub_ok Hrip Hsha Hh160 Hh256 Hleaf Hbranch).
-Notation POSTI := (posti maxvec cap_txin cap_txout cap_vecu8 cap_h32 pt_ok pk_ok xonly_ok btctx_ok xpub_ok Hrip Hsha Hh160 Hh256 Hleaf Hbranch).
-Notation POSTO := (posto maxvec cap_txin cap_txout cap_vecu8 cap_h32 pt_ok pk_ok xonly_ok btctx_ok xpub_ok Hrip Hsha Hh160 Hh256 Hleaf Hbranch).
-Notation SER := (pset_serialize maxvec cap_txin cap_txout cap_vecu8 cap_h32 pt_ok pk_ok xonly_ok btctx_ok xpub_ok Hrip Hsha Hh160 Hh256 Hleaf Hbranch).
-Notation DESER := (pset_deserialize maxvec cap_txin cap_txout cap_vecu8 cap_h32 pt_ok pk_ok xonly_ok btctx_ok xpub_ok Hrip Hsha Hh160 Hh256 Hleaf Hbranch).
+Notation row_of_desc := (row_of_desc maxvec cap_txin cap_txout cap_vecu8 cap_h32 pt_ok pk_ok xonly_ok Hrip Hsha Hh160 Hh256 Hleaf Hbranch).
+Notation TG := (Tg maxvec cap_txin cap_txout cap_vecu8 cap_h32 pt_ok pk_ok xonly_ok Hrip Hsha Hh160 Hh256 Hleaf Hbranch).
+Notation TI := (Ti maxvec cap_txin cap_txout cap_vecu8 cap_h32 pt_ok pk_ok xonly_ok Hrip Hsha Hh160 Hh256 Hleaf Hbranch).
+Notation TO := (To maxvec cap_txin cap_txout cap_vecu8 cap_h32 pt_ok pk_ok xonly_ok Hrip Hsha Hh160 Hh256 Hleaf Hbranch).
+Notation POSTG := (postg maxvec cap_txin cap_txout cap_vecu8 cap_h32 pt_ok pk_ok xonly_ok Hrip Hsha Hh160 Hh256 Hleaf Hbranch).
+Notation POSTI := (posti maxvec cap_txin cap_txout cap_vecu8 cap_h32 pt_ok pk_ok xonly_ok Hrip Hsha Hh160 Hh256 Hleaf Hbranch).
+Notation POSTO := (posto maxvec cap_txin cap_txout cap_vecu8 cap_h32 pt_ok pk_ok xonly_ok Hrip Hsha Hh160 Hh256 Hleaf Hbranch).
+Notation SER := (pset_serialize maxvec cap_txin cap_txout cap_vecu8 cap_h32 pt_ok pk_ok xonly_ok Hrip Hsha Hh160 Hh256 Hleaf Hbranch).
+Notation DESER := (pset_deserialize maxvec cap_txin cap_txout cap_vecu8 cap_h32 pt_ok pk_ok xonly_ok Hrip Hsha Hh160 Hh256 Hleaf Hbranch).
 
 (* every row built from a descriptor satisfies the row laws *)
 Lemma row_of_desc_ok d : row_ok (row_of_desc d).
@@ -104,6 +158,22 @@ Proof. intros H. apply rt_c. eapply deserialize_wf_c; eauto. Qed.
 Theorem counts_c bs p : DESER bs = POk p -> sanity_check n_inputs n_outputs p = true.
 Proof. apply (deserialize_counts maxvec Hmax Hmin TG TI TO POSTG POSTI POSTO n_inputs n_outputs C07_PSET_CAP ROi ROo). Qed.
 
+(* inconsistent counts, both directions: a byte string made of the magic, a global map and k further well-framed maps is accepted only
+   if k = declared inputs + declared outputs; hence any mismatch between the declared counts and the maps present is an error *)
+Theorem framed_count_c (gps : list rpair) (ms : list (list rpair)) p : Forall (fits maxvec) gps -> Forall (Forall (fits maxvec)) ms ->
+  DESER (magic ++ enc_rawmap maxvec gps ++ concat (map (enc_rawmap maxvec) ms)) = POk p ->
+  N.of_nat (length ms) = n_inputs (p_global p) + n_outputs (p_global p).
+Proof. intros Fg Fm H. assert (L : length ms = (length (p_inputs p) + length (p_outputs p))%nat) by (unfold PsetTables.pset_deserialize in H; eapply (framed_count maxvec Hmax Hmin TG TI TO POSTG POSTI POSTO n_inputs n_outputs C07_PSET_CAP Gall Gall Gall GIg GIi GIo); eassumption).
+  pose proof (counts_c _ _ H) as S. unfold sanity_check in S. apply andb_true_iff in S as [S1 S2]. apply N.eqb_eq in S1, S2. lia. Qed.
+Theorem count_mismatch_rejected (gps : list rpair) (ms : list (list rpair)) g r : Forall (fits maxvec) gps -> Forall (Forall (fits maxvec)) ms ->
+  dec_map maxvec TG POSTG (enc_rawmap maxvec gps ++ concat (map (enc_rawmap maxvec) ms)) = POk (g, r) ->
+  N.of_nat (length ms) <> n_inputs g + n_outputs g ->
+  exists e, DESER (magic ++ enc_rawmap maxvec gps ++ concat (map (enc_rawmap maxvec) ms)) = PErr e.
+Proof. intros Fg Fm Dg NE. destruct (DESER _) as [p|e] eqn:D; [|eauto]. exfalso. apply NE.
+  assert (X : exists r', dec_map maxvec TG POSTG (enc_rawmap maxvec gps ++ concat (map (enc_rawmap maxvec) ms)) = POk (p_global p, r')) by (unfold PsetTables.pset_deserialize in D; eapply deserialize_global; eassumption).
+  destruct X as [r' Dg']. rewrite Dg in Dg'. inversion Dg'; subst.
+  now apply (framed_count_c gps ms p). Qed.
+
 (* mandatory fields: what dec_map accepts has every mandatory row *)
 Lemma missing_g bs m rest : dec_map maxvec TG POSTG bs = POk (m, rest) -> missing TG m = false /\ get_opt m (idx C07_GLOBAL_FIELDS (blit_of "ver"%lb)) = Some two_le.
 Proof. unfold dec_map. destruct (dec_entries maxvec TG (S (length bs)) bs []) as [[m' r]|]; [|discriminate]. cbn [pbind fst].
@@ -131,6 +201,43 @@ Definition no_optlast (T : table) : bool := forallb (fun r => match r_kind r wit
 Lemma no_optlast_row T i r : no_optlast T = true -> nth_error T i = Some r -> r_kind r <> KOptLast.
 Proof. unfold no_optlast. rewrite forallb_forall. intros F H E. specialize (F r (nth_error_In _ _ H)). now rewrite E in F. Qed.
 
+(* ---- ELIP accessors on the three concrete tables ---- *)
+Lemma RTg : route_ok TG = true. Proof. vm_compute. reflexivity. Qed.
+Lemma RTi : route_ok TI = true. Proof. vm_compute. reflexivity. Qed.
+Lemma RTo : route_ok TO = true. Proof. vm_compute. reflexivity. Qed.
+Definition prow : row := row_of_desc ([x70; x72; x6f; x70; x72; x69; x65; x74; x61; x72; x79], 6, 252, 252, [], []).
+Lemma prow_g : nth_error TG (prop_row C07_GLOBAL_FIELDS) = Some prow. Proof. unfold PsetTables.Tg, prow. apply map_nth_error. vm_compute. reflexivity. Qed.
+Lemma prow_i : nth_error TI (prop_row C07_INPUT_FIELDS) = Some prow. Proof. unfold PsetTables.Ti, prow. apply map_nth_error. vm_compute. reflexivity. Qed.
+Lemma prow_o : nth_error TO (prop_row C07_OUTPUT_FIELDS) = Some prow. Proof. unfold PsetTables.To, prow. apply map_nth_error. vm_compute. reflexivity. Qed.
+Lemma prow_v k v : r_vcanon prow k v = POk v. Proof. reflexivity. Qed.
+Lemma prow_mand r T i : nth_error T i = Some prow -> nth_error T i = Some r -> r_mand r = false.
+Proof. intros H H'. rewrite H in H'. inversion H'; subst. reflexivity. Qed.
+Ltac neq_idx := let E := fresh in vm_compute; intro E; discriminate E.
+Lemma postg_set m k v : POSTG (set_keyed TG m (prop_row C07_GLOBAL_FIELDS) k v) = POSTG m.
+Proof. unfold PsetTables.postg. rewrite (get_opt_set TG) by neq_idx. now rewrite (missing_set TG) by (intros r; apply (prow_mand r TG _ prow_g)). Qed.
+Lemma posti_set m k v : POSTI (set_keyed TI m (prop_row C07_INPUT_FIELDS) k v) = POSTI m.
+Proof. unfold PsetTables.posti. now rewrite (missing_set TI) by (intros r; apply (prow_mand r TI _ prow_i)). Qed.
+Lemma posto_set m k v : POSTO (set_keyed TO m (prop_row C07_OUTPUT_FIELDS) k v) = POSTO m.
+Proof. unfold PsetTables.posto, present. rewrite (missing_set TO) by (intros r; apply (prow_mand r TO _ prow_o)).
+  now rewrite !(has_slot_set TO) by neq_idx. Qed.
+Lemma counts_set g k v : n_inputs (set_keyed TG g (prop_row C07_GLOBAL_FIELDS) k v) = n_inputs g /\ n_outputs (set_keyed TG g (prop_row C07_GLOBAL_FIELDS) k v) = n_outputs g.
+Proof. unfold n_inputs, n_outputs, count_of. split; now rewrite (get_opt_set TG) by neq_idx. Qed.
+
+Theorem set_global_prop_wf p k v : wf_pset_c p -> fitsb maxvec k = true -> fitsb maxvec v = true -> foreign maxvec k ->
+  wf_pset_c (set_global_prop maxvec cap_txin cap_txout cap_vecu8 cap_h32 pt_ok pk_ok xonly_ok Hrip Hsha Hh160 Hh256 Hleaf Hbranch p k v).
+Proof. intros (Wg & Wi & Wo & Ni & No & Ci & Co) Fk Fv (pfx & s & d & PD & NP). unfold wf_pset_c, wf_pset, set_global_prop. cbn [p_global p_inputs p_outputs].
+  destruct (counts_set (p_global p) k v) as [-> ->]. split; [|repeat split; auto].
+  eapply (foreign_set_wf maxvec Hmax Hmin TG POSTG RTg ROg _ prow prow_g eq_refl prow_v postg_set); eauto. Qed.
+Theorem set_input_prop_wf p n k v : wf_pset_c p -> fitsb maxvec k = true -> fitsb maxvec v = true -> foreign maxvec k ->
+  wf_pset_c (set_input_prop maxvec cap_txin cap_txout cap_vecu8 cap_h32 pt_ok pk_ok xonly_ok Hrip Hsha Hh160 Hh256 Hleaf Hbranch p n k v).
+Proof. intros (Wg & Wi & Wo & Ni & No & Ci & Co) Fk Fv (pfx & s & d & PD & NP). unfold wf_pset_c, wf_pset, set_input_prop. cbn [p_global p_inputs p_outputs].
+  rewrite upd_nth_length. split; [exact Wg|]. split; [|repeat split; auto]. apply Forall_upd_nth; [|exact Wi]. intros m Wm.
+  eapply (foreign_set_wf maxvec Hmax Hmin TI POSTI RTi ROi _ prow prow_i eq_refl prow_v posti_set); eauto. Qed.
+Theorem set_output_prop_wf p n k v : wf_pset_c p -> fitsb maxvec k = true -> fitsb maxvec v = true -> foreign maxvec k ->
+  wf_pset_c (set_output_prop maxvec cap_txin cap_txout cap_vecu8 cap_h32 pt_ok pk_ok xonly_ok Hrip Hsha Hh160 Hh256 Hleaf Hbranch p n k v).
+Proof. intros (Wg & Wi & Wo & Ni & No & Ci & Co) Fk Fv (pfx & s & d & PD & NP). unfold wf_pset_c, wf_pset, set_output_prop. cbn [p_global p_inputs p_outputs].
+  rewrite upd_nth_length. split; [exact Wg|]. split; [exact Wi|]. split; [|repeat split; auto]. apply Forall_upd_nth; [|exact Wo]. intros m Wm.
+  eapply (foreign_set_wf maxvec Hmax Hmin TO POSTO RTo ROo _ prow prow_o eq_refl prow_v posto_set); eauto. Qed.
 (* text form *)
 Definition to_string (p : pset) : bytes := b64_enc (SER p).
 Definition from_str (s : bytes) : pres pset := match b64_dec s with Some b => DESER b | None => PErr EInvalid end.
